@@ -21,6 +21,18 @@ def _bytes(name, b, comment):
     return (name, 'def %s : List UInt8 := [%s]' % (name, ', '.join(str(x) for x in b)), comment)
 
 
+def _chunk_setup(g, rel):
+    """the statements of setup() that turn control/chunksizeremote into `chunksize`, white space normalised: the value
+    handed to send_bdat() is the configured one (pinned text: no harness runs setup(); seeded change c19-m10 clamped it)"""
+    t = g.text(rel) or ''
+    m = re.search(r'#ifdef CHUNKING\s*(unsigned long chunk;.*?)#endif', t, re.S)
+    if not m:
+        g.broken.append('%s: anchor chunksize set-up block not found' % rel)
+        return ('configuredBdatSetup', 'def configuredBdatSetup : String := ""', 'BROKEN ANCHOR: qremote.c: chunksize set-up block')
+    body = re.sub(r'\s+', ' ', m.group(1)).strip().replace('\\', '\\\\').replace('"', '\\"')
+    return ('configuredBdatSetup', 'def configuredBdatSetup : String := "%s"' % body, 'qremote.c setup(): from control/chunksizeremote to chunksize')
+
+
 def bdat_row(g):
     """(mask, state, flags) of the BDAT row of commands[]"""
     t = g.text('qsmtpd/qsmtpd.c') or ''
@@ -90,6 +102,7 @@ def gen_bdat(g):
         ('bdatOkCode', g.const(tx, 'send_bdat', r'checkreply\(" ZD", NULL, 0\) != (\d+)\)', 'expected reply code'), 'send_bdat: reply code that lets the transfer continue'),
         ('chunksizeDefault', g.const(qr, None, r'"chunksizeremote", O_RDONLY \| O_CLOEXEC\), &chunk, (\d+)\)', 'default chunk size'), 'qremote.c: default of control/chunksizeremote'),
         ('chunksizeLimitLog2', g.const(qr, None, r'chunk >= \(\(unsigned long\)1 << (\d+)\)', 'chunk size limit'), 'qremote.c: chunk sizes >= 1 << N are refused'),
+        _chunk_setup(g, qr),
         ('bdatState', g.const(rx, 'smtp_bdat', r'comstate (?:!=|=) (0x[0-9a-fA-F]+)', 'BDAT state', count_min=2), 'smtp_bdat: comstate value while a BDAT transfer is open (two sites, equal)'),
         ('bdatArgOff', g.const(rx, 'smtp_bdat', r'linein\.s(?:\[| \+ )(\d+)', 'argument offset', count_min=4), 'smtp_bdat: linein.s[N] / linein.s + N (all sites equal)'),
         ('bdatBufSlack', g.const(rx, 'smtp_bdat', r'net_readbin\(sizeof\(inbuf\) - (\d+), inbuf\)', 'buffer slack'), 'smtp_bdat: net_readbin(sizeof(inbuf) - N, inbuf)'),
